@@ -57,6 +57,23 @@ if os.path.realpath(src) != os.path.realpath(dst):
   shutil.copy(os.path.join(src, 'demo.py'), dst + '/demo.py')
 meta = json.load(open(os.path.join(src, 'meta.json'))) if os.path.exists(os.path.join(src, 'meta.json')) else {}
 meta['breaks_property'] = prop
+prev = {}
+if os.path.exists(dst + '/meta.json'):
+  try:
+    prev = json.load(open(dst + '/meta.json'))
+  except Exception:
+    prev = {}
+pc = prev.get('confirmed_by_lead', {})
+for k in ('suite_summary', 'baseline_missing', 'baseline_note'):
+  if k not in res and k in pc:
+    res[k] = pc[k]
+hist = prev.get('check_history', [])
+if pc.get('checks'):
+  hist.append({'repo_head': pc.get('repo_head'), 'checks': {c: v.get('exit') for c, v in pc['checks'].items()}})
+meta['check_history'] = hist
+for k in ('summary', 'needs', 'files', 'suite'):
+  if k not in meta and k in prev:
+    meta[k] = prev[k]
 meta['confirmed_by_lead'] = res
 json.dump(meta, open(dst + '/meta.json', 'w'), indent=1)
 print(json.dumps(res, indent=1)[:3000])
